@@ -188,6 +188,34 @@ def run(pid, tier, seed):
                 rng.shuffle(perm)
                 jobs.append((si, "perm", {"_perm": perm}, None))
 
+        # tie-heavy sets: every message of every source shares its instant with a message of every other source, more
+        # messages than a channel holds; the earlier-named source is starved at several of its sends (its channel runs
+        # empty while the others fill up and block) and vice versa: the tie rule must not look at anything but the order
+        # of the sources
+        for ti in range(2 if tier == "quick" else 8):
+            n = 2 + ti % 2
+            nm = rng.choice([12, 20, 30])
+            insts = [(gen.BASE + 3 * i, 0) for i in range(nm)]
+            files, argv, sources, meta = {}, [], [], []
+            for w in range(n):
+                letter = "TUV"[w]
+                cont = (lambda i, letter=letter: [("  cont src=%s idx=%d" % (letter, i)).encode()] * 3) if w == 0 and ti % 2 == 0 else None
+                blob, msgs = gen.text_source(letter, insts, offset_min=rng.choice(OFFSETS), frac=rng.choice([0, 3, 6]), pad=rng.choice([0, 200]), cont=cont)
+                files["t%d_%s.log" % (w, letter)] = blob
+                argv.append("t%d_%s.log" % (w, letter))
+                sources.append(msgs)
+                meta.append({"name": argv[-1], "kind": "log", "msgs": nm, "ties": "all"})
+            expected = b"".join(m.data for m in gen.expected_merge(sources))
+            ranks = runmodel.rank_table([m.key for s_ in sources for m in s_])
+            dts = [[ranks[m.key] for m in s_] for s_ in sources]
+            sets.append((files, argv, sources, meta, expected, ranks, dts))
+            si = len(sets) - 1
+            jobs.append((si, "free", {}, None))
+            for w in range(n):
+                holds = ",".join("w%d:SendStart:%d:%d" % (w, k, 70) for k in (2, 9, nm // 2, nm - 1))
+                jobs.append((si, "hold", {"S4_VERIF_HOLD": holds}, None))
+            jobs.append((si, "seeded", {"S4_VERIF_SEED": str(rng.randrange(1 << 30)), "S4_VERIF_DELAY_US": "1500"}, None))
+
         def do(job):
             ji, (si, label, env, plan) = job
             files, argv, sources, meta, expected, ranks, dts = sets[si]
